@@ -424,6 +424,11 @@ func propsMvcc(k1 []byte, v1 uint64, k2 []byte, v2 uint64) {
 	prop("mvcc_meta_roundtrip", err == nil && bytes.Equal(mk, k1) && mv == 0, hx(k1))
 	dk, err := apicodec.VerifMemDecodeKey(apicodec.VerifMemEncodeKey(k1))
 	prop("memkey_roundtrip", err == nil && bytes.Equal(dk, k1), hx(k1))
+	m1, m2 := apicodec.VerifMemEncodeKey(k1), apicodec.VerifMemEncodeKey(k2)
+	prop("memkey_order", sign(bytes.Compare(m1, m2)) == sign(bytes.Compare(k1, k2)), hx(k1), hx(k2))
+	// decodeKey drops what follows the first encoded string (here: an encoded second key, as in a composite key)
+	dk2, err := apicodec.VerifMemDecodeKey(append(append([]byte{}, m1...), m2...))
+	prop("memkey_ignores_suffix", err == nil && bytes.Equal(dk2, k1), hx(k1), hx(k2))
 }
 
 // strictness of mvccDecode evaluated on the implementation: whatever it accepts is a meta key or exactly one mvccEncode image
@@ -439,6 +444,10 @@ func propMvccStrict(in []byte) {
 	}
 	meta := codec.EncodeBytes(nil, k)
 	prop("mvcc_strict", (v == 0 && bytes.Equal(meta, in)) || bytes.Equal(mocktikv.VerifMvccEncode(k, v), in), hx(in))
+	// whatever the memcomparable key codec accepts starts with the encoding of the key it returns
+	if mk, err := apicodec.VerifMemDecodeKey(append([]byte{}, in...)); err == nil {
+		prop("memkey_decode_prefix", bytes.HasPrefix(in, apicodec.VerifMemEncodeKey(mk)), hx(in))
+	}
 }
 
 var alphabet = []byte{0x00, 0x01, 0x7F, 0x80, 0xFE, 0xFF}
